@@ -1,0 +1,42 @@
+//go:build verif
+
+package ha
+
+import (
+	"sort"
+	"sync/atomic"
+	"time"
+)
+
+// Add-only verification hooks for property C13, second part: views of the
+// active's stream-client registry and the heartbeat half of broadcastLoop, for
+// harnesses that own the active's stream handlers (reconnect schedules: an old
+// stream handler of a standby that outlives the standby's new registration).
+// Compiled only with `-tags verif`; nothing here changes existing behaviour.
+
+// VerifSSEClientIDs returns the keys under which stream clients are currently
+// registered on the active (the keys of sseClients), sorted.  Diagnostic view:
+// harness verdicts are taken from what the stream connections receive.
+func (s *HASyncer) VerifSSEClientIDs() []string {
+	s.sseClientsMu.RLock()
+	ids := make([]string, 0, len(s.sseClients))
+	for id := range s.sseClients {
+		ids = append(ids, id)
+	}
+	s.sseClientsMu.RUnlock()
+	sort.Strings(ids)
+	return ids
+}
+
+// VerifBroadcastHeartbeat does what broadcastLoop does on one tick of its
+// heartbeat ticker: it hands a heartbeat carrying the current sequence number
+// to the connected stream clients through the real broadcastToClients.  For a
+// syncer that was not started (no broadcastLoop).
+func (s *HASyncer) VerifBroadcastHeartbeat() {
+	s.broadcastToClients(&SyncMessage{
+		Type:        SyncTypeHeartbeat,
+		Timestamp:   time.Now(),
+		SequenceNum: atomic.LoadUint64(&s.sequenceNum),
+		NodeID:      s.config.NodeID,
+	})
+}
